@@ -325,6 +325,9 @@ var logBuf bytes.Buffer
 // cacheNow is the cache's clock (the verif hook VerifCacheClock reads it).
 var cacheNow = time.Unix(1700000000, 0)
 
+// chmodCount numbers the output chmods of a history.
+var chmodCount uint32
+
 func realBuild(root string, targets []string, always bool) (ok bool, errText string, exec []string) {
 	logBuf.Reset()
 	exec = []string{}
@@ -395,6 +398,7 @@ func entriesJSON(es []Entry) []byte {
 
 func runCase(c *Case, withClean bool) {
 	cacheNow = time.Unix(1700000000, 0)
+	chmodCount = 0
 	root, err := os.MkdirTemp(scratch, "c10-")
 	if err != nil {
 		fatal("scratch", err)
@@ -457,9 +461,13 @@ func runCase(c *Case, withClean bool) {
 			// chmod only: same bytes, same mtime, another mode
 			f := filepath.Join(root, "out", filepath.FromSlash(op.Out))
 			if info, err := os.Lstat(f); err == nil {
-				m := fs.FileMode(0o600)
-				if info.Mode().Perm() == 0o600 {
-					m = 0o640
+				// a mode this history has not used yet (owner rw stays): going
+				// back to a recorded mode would not be a new stat
+				chmodCount++
+				m := fs.FileMode(0o600 + (chmodCount*7)%64)
+				if m == info.Mode().Perm() || m == 0o644 {
+					chmodCount++
+					m = fs.FileMode(0o600 + (chmodCount*7)%64)
 				}
 				if err := os.Chmod(f, m); err != nil {
 					fatal("chmod out", err)
